@@ -231,6 +231,33 @@ def run(chk):
          'actions are scheduled without their requirements being complete',
          fi=sa_.fi)
 
+  # the schedule is a list: the members of an iteration stand in it in the
+  # declared order, free actions in sorted order - never in the order a set
+  # happens to iterate (hash seed)
+  from sa import setorder
+  an = setorder.Analysis(repo, [repo.mod('common/concertina_lib.py')])
+  col = setorder.Collector(an, [])
+  sched = 0
+  leaks = []
+  for st in col.run():
+    about = st.fi.fq == sa_.fi.fq or any('SortActions' in c for c in st.chain)
+    if not about:
+      continue
+    sched += 1
+    if st.verdict == 'leak' and not any('AsNodesAndEdges' in c for c in st.chain):
+      leaks.append(st)
+  if sched < 3:
+    raise AnalysisError('SortActions: the set-order analysis sees %d unordered '
+                        'constructs (expected its sets of pending actions)' % sched)
+  chk.ob('C14-R2', not leaks, None,
+         'no set iteration order reaches the schedule (%d unordered constructs of '
+         'SortActions followed)' % sched,
+         '%s: %s || %s -- the actions of one iteration (or of the whole program) run '
+         'in an order that depends on the hash seed, not in the declared order' % (
+             leaks[0].source if leaks else '', leaks[0].reason if leaks else '',
+             ' -> '.join(leaks[0].chain[-3:]) if leaks else ''),
+         fi=leaks[0].fi if leaks else sa_.fi, node=leaks[0].node if leaks else None)
+
   chk.rule('C14-R3', 'bounded repetition: an iterated action is re-queued '
            'only after its counter was incremented and found below the '
            'declared repetitions; only SortActions/RunOneAction/'
